@@ -418,25 +418,33 @@ pure aprefix(t Bytes, n Bytes) Bytes = "\x22" ++ ripemd160(t) ++ ripemd160(n)
 pure recAtP(s Store, p Bytes, j Int) RecordState = deser_RecordState(s.get(skey(s, p, j)))
 pred typed(s Store, p Bytes, ty Int) = forall j Int {skey(s, p, j)} :: 0 <= j && j < cnt(s, p) ==> recAtP(s, p, j).Type == ty
 
+// schema of the record store, for every history: a record key is 0x22 ++ 20 ++ 20 ++ type ++ index and the record stored
+// there carries that type (storeRecord is the only writer)
+pred schema(s Store) = forall k Bytes {s.opt(k)} :: prefix("\x22", k) && s.has(k) ==> len(k) == 43 && deser_RecordState(s.get(k)).Type == k[41]
+invariant InvRecords [C12] = schema(store)
+axiom ripemdLen2: forall a Bytes {ripemd160(a)} :: len(ripemd160(a)) == 20
+
+// the filter on the record's own type never drops anything: under the schema every record found under the prefix of one
+// type carries that type
 func getRecordsByType(ctx, tokenId, name, typ) (r)
   pure
-  requires typed(store, rprefix(tokenId, name, typ), typ)
-  ensures [C12] len(r) == cnt(store, rprefix(tokenId, name, typ)) && !isnil(r)
-  ensures [C12] forall j Int {r[j]} :: 0 <= j && j < len(r) ==> r[j] == recAtP(store, rprefix(tokenId, name, typ), j).Data
+  ensures [C12] !isnil(r) && len(r) <= cnt(store, rprefix(tokenId, name, typ))
+  ensures [C12] schema(store) && 0 <= typ && typ < 256 ==> len(r) == cnt(store, rprefix(tokenId, name, typ))
+  ensures [C12] schema(store) && 0 <= typ && typ < 256 ==> (forall j Int {r[j]} :: 0 <= j && j < len(r) ==> r[j] == recAtP(store, rprefix(tokenId, name, typ), j).Data)
   loop 0
-    invariant len(result) == $it.pos && !isnil(result)
-    invariant forall j Int {result[j]} :: 0 <= j && j < $it.pos ==> result[j] == recAtP(store, rprefix(tokenId, name, typ), j).Data
+    invariant len(result) <= $it.pos && !isnil(result)
+    invariant schema(store) && 0 <= typ && typ < 256 ==> len(result) == $it.pos
+    invariant schema(store) && 0 <= typ && typ < 256 ==> (forall j Int {result[j]} :: 0 <= j && j < $it.pos ==> result[j] == recAtP(store, rprefix(tokenId, name, typ), j).Data)
 
 // getRecords returns the data of all records of (name, type) in index order, only while the name that holds them is unexpired
 func GetRecords(name, typ) (r)
   pure
-  requires [Pre] typed(store, rprefix(tokenOf(store, name), name, typ), typ)
   // records of a sub-name live under the longest registered enclosing name: they are readable although the names between
   // the two are not registered (documented success stays reachable)
   cover [C12] tokenOf(store, name) != name && len(split(name, ".")) > 2 && !store.has(nkey(sfx(split(name, "."), 1)))
   ensures [C12] len(split(name, ".")) > 1
-  ensures [C12] len(r) == cnt(store, rprefix(tokenOf(store, name), name, typ))
-  ensures [C12] forall j Int {r[j]} :: 0 <= j && j < len(r) ==> r[j] == recAtP(store, rprefix(tokenOf(store, name), name, typ), j).Data
+  ensures [C12] 0 <= typ && typ < 256 ==> len(r) == cnt(store, rprefix(tokenOf(store, name), name, typ))
+  ensures [C12] 0 <= typ && typ < 256 ==> (forall j Int {r[j]} :: 0 <= j && j < len(r) ==> r[j] == recAtP(store, rprefix(tokenOf(store, name), name, typ), j).Data)
   ensures [C12] store.has(nkey(tokenOf(store, name))) && now < rec(store, tokenOf(store, name)).Expiration
 
 // deleteRecords empties exactly one type (never SOA = 6) of one name and refreshes the SOA record of the token
